@@ -360,7 +360,7 @@ func macroArgsOriginSrc(w *World, v ssa.Value, evalM *types.Func, depth int, src
 			return ""
 		}
 		h := c.Call.StaticCallee()
-		if h == nil || h.Pkg == nil || h.Pkg.Pkg.Path() != twigPath || len(h.Blocks) == 0 {
+		if h == nil || !isTwigFn(h) || len(h.Blocks) == 0 {
 			return ""
 		}
 		okAll, n := true, 0
@@ -758,7 +758,7 @@ func classifyBinding(w *World, fn *ssa.Function, val ssa.Value, at *ssa.BasicBlo
 				return bad("", "the bound value is an evaluated expression that is not this parameter's default")
 			}
 			// a helper that is handed (i, name, args)
-			if h := ec.Call.StaticCallee(); h != nil && h.Pkg != nil && h.Pkg.Pkg.Path() == twigPath && len(h.Blocks) > 0 && depth < 2 {
+			if h := ec.Call.StaticCallee(); h != nil && isTwigFn(h) && len(h.Blocks) > 0 && depth < 2 {
 				var hIdx, hName, hArgs ssa.Value
 				for i, a := range ec.Call.Args {
 					if i >= len(h.Params) {
